@@ -106,6 +106,16 @@ def minSeqLoop : List Node → (Bool × Nat × Nat × Int) → Int → Int
 
 def minSeqLength (ns : List Node) : Int := minSeqLoop ns (false, 0, 0, 0) 0
 
+/-- no replication descriptor of a Table D sequence reaches past the end of the sequence
+(`bufr_expand_desc`) -/
+def spansClosedFrom (count : Nat) : Nat → List Nat → Bool
+  | _, [] => true
+  | i, d :: ds =>
+    (if Desc.f d = 1 then decide (i + (Desc.x d + (if Desc.y d = 0 then 1 else 0)) < count) else true) &&
+      spansClosedFrom count (i + 1) ds
+
+def spansClosed (ms : List Nat) : Bool := spansClosedFrom ms.length 0 ms
+
 mutual
 /-- `bufr_estimate_seq_length` with its running state: `(lastDesc, lastNbits)`, `(repDesc, repCnt)`
 and the delayed-replication tracking `(dlyNext, dlyX, dlyDesc, dlyCnt)` that makes the estimate a
@@ -175,6 +185,8 @@ def expandDesc (T : Tables) : Nat → Nat → Option Nat → Nat → XRes
     else match T.fetchD d with
       | none => .error .null
       | some e =>
+        -- a replication inside a Table D sequence must be closed within the sequence
+        if !spansClosed e.members then .error .null else
         match memberNodes T none e.members with
         | none => .error .null
         | some nodes => expandList T f flags s4 nodes
